@@ -422,7 +422,8 @@ class Shelxfile():
                 self.afix.mn = 0
                 if self.debug or self.verbose:
                     print('AFIX in line {} was not closed'.format(line_num + 1))
-            elif word == 'AFIX':
+                # Do not continue here, otherwise HKLF is not parsed
+            if word == 'AFIX':
                 self.afix = self._assign_card(AFIX(self, spline), line_num)
             elif self.is_atom(line):
                 # A SHELXL atom:
